@@ -339,9 +339,10 @@ let opres_text = function
   | PCard (ROk CBank) -> "Ok:Bank"
   | PCard (ROk (CMember id)) -> "Ok:Member:" ^ show_text (cps_text id)
   | PSummary (ROk m) ->
+      let txt l = String.concat "" (List.map (fun c -> String.make 1 (Char.chr (int_of_n c))) l) in
       Printf.sprintf "Ok:tid=%s,amount=%s,trace=%s,date=%s,time=%s"
-        (opt_n string_of_n m.m_tid) (opt_n string_of_n m.m_amount) (opt_n string_of_n m.m_trace)
-        (opt_n (fun x -> Printf.sprintf "%04d" (int_of_n x)) m.m_date) (opt_n (fun x -> Printf.sprintf "%06d" (int_of_n x)) m.m_time)
+        (opt_n txt m.m_tid) (opt_n string_of_n m.m_amount) (opt_n string_of_n m.m_trace)
+        (opt_n txt m.m_date) (opt_n txt m.m_time)
 
 let event_text = function
   | EOpen (id, t) -> Printf.sprintf "O%s@%s" (string_of_n id) (string_of_n t)
